@@ -947,3 +947,398 @@ Proof.
   - destruct (str_eqb v []) eqn:E; [|discriminate]. apply str_eqb_eq in E. exact E.
   - destruct v; [reflexivity|discriminate].
 Qed.
+
+(** * C15, concurrent half: requests interleaved on one heap do not see each other *)
+
+(* [sim l1 l2 p1 p2]: the same program up to the name of the one cell it uses *)
+Inductive sim {R} (l1 l2 : nat) : prog R -> prog R -> Prop :=
+| sim_ret r : sim l1 l2 (Ret r) (Ret r)
+| sim_throw pv : sim l1 l2 (Throw pv) (Throw pv)
+| sim_load k1 k2 : (forall v, sim l1 l2 (k1 v) (k2 v)) -> sim l1 l2 (Load l1 k1) (Load l2 k2)
+| sim_store v k1 k2 : sim l1 l2 k1 k2 -> sim l1 l2 (Store l1 v k1) (Store l2 v k2)
+| sim_emit e k1 k2 : sim l1 l2 k1 k2 -> sim l1 l2 (Emit e k1) (Emit e k2).
+
+Lemma sim_bind {A B} l1 l2 (p1 p2 : prog A) (f1 f2 : A -> prog B) :
+  sim l1 l2 p1 p2 -> (forall a, sim l1 l2 (f1 a) (f2 a)) -> sim l1 l2 (pbind p1 f1) (pbind p2 f2).
+Proof.
+  intros Hp Hf. induction Hp as [r|pv|k1 k2 _ IH|v k1 k2 _ IH|e k1 k2 _ IH]; cbn [pbind].
+  - apply Hf.
+  - constructor.
+  - constructor. exact IH.
+  - constructor. exact IH.
+  - constructor. exact IH.
+Qed.
+
+Lemma sim_try_catch {A} l1 l2 (p1 p2 : prog A) hd1 hd2 :
+  sim l1 l2 p1 p2 -> (forall pv, sim l1 l2 (hd1 pv) (hd2 pv)) -> sim l1 l2 (try_catch p1 hd1) (try_catch p2 hd2).
+Proof.
+  intros Hp Hh. induction Hp as [r|pv|k1 k2 _ IH|v k1 k2 _ IH|e k1 k2 _ IH]; cbn [try_catch].
+  - constructor.
+  - apply Hh.
+  - constructor. exact IH.
+  - constructor. exact IH.
+  - constructor. exact IH.
+Qed.
+
+(* two contexts that differ only in which cell their innermost batch entry points to *)
+Definition csim (l1 l2 : nat) (c1 c2 : ctx) : Prop :=
+  (ctx_batch c1 = Some l1 /\ ctx_batch c2 = Some l2) \/ (ctx_batch c1 = None /\ ctx_batch c2 = None).
+
+Lemma csim_resolve l1 l2 c1 c2 hc : csim l1 l2 c1 c2 -> csim l1 l2 (resolve c1 hc) (resolve c2 hc).
+Proof. intros H. destruct hc; [exact H|right; split; reflexivity]. Qed.
+
+Section Sim.
+  Variable cfg : config.
+  Variables l1 l2 : nat.
+
+  Lemma sim_idp c1 c2 : csim l1 l2 c1 c2 -> sim l1 l2 (id_placeholder c1) (id_placeholder c2).
+  Proof.
+    unfold id_placeholder. intros [[-> ->]|[-> ->]]; [|constructor].
+    constructor. intros v. constructor.
+  Qed.
+
+  Lemma sim_get_or c1 c2 q : csim l1 l2 c1 c2 -> sim l1 l2 (get_id_or_placeholder c1 q) (get_id_or_placeholder c2 q).
+  Proof.
+    intros H. unfold get_id_or_placeholder. destruct (negb (str_is_empty q)); [constructor|].
+    apply sim_bind; [apply sim_idp; exact H|]. intros idp. destruct (negb (str_is_empty idp)); constructor.
+  Qed.
+
+  Lemma sim_set c1 c2 s : csim l1 l2 c1 c2 -> sim l1 l2 (set_id_placeholder c1 s) (set_id_placeholder c2 s).
+  Proof.
+    unfold set_id_placeholder. intros [[-> ->]|[-> ->]]; [|constructor]. constructor. constructor.
+  Qed.
+
+  Lemma sim_clear c1 c2 : csim l1 l2 c1 c2 -> sim l1 l2 (clear_id_placeholder c1) (clear_id_placeholder c2).
+  Proof.
+    unfold clear_id_placeholder. intros [[-> ->]|[-> ->]]; [|constructor]. constructor. constructor.
+  Qed.
+
+  Variables c1 c2 : ctx.
+  Hypothesis Hc : csim l1 l2 c1 c2.
+
+  Lemma sim_hprog idx : forall hp, sim l1 l2 (run_hprog c1 idx hp) (run_hprog c2 idx hp).
+  Proof.
+    induction hp as [o|hc k IH|hc q k IH|hc s k IH|hc k IH]; cbn [run_hprog].
+    - constructor. destruct o; constructor.
+    - apply sim_bind; [apply sim_idp, csim_resolve, Hc|]. intros v. constructor. apply IH.
+    - apply sim_bind; [apply sim_get_or, csim_resolve, Hc|]. intros r. constructor. apply IH.
+    - apply sim_bind; [apply sim_set, csim_resolve, Hc|]. intros u. constructor. apply IH.
+    - apply sim_bind; [apply sim_clear, csim_resolve, Hc|]. intros u. constructor. apply IH.
+  Qed.
+
+  Lemma sim_hbie bi err : sim l1 l2 (handle_batch_item_error c1 bi err) (handle_batch_item_error c2 bi err).
+  Proof.
+    destruct err as [e|]; [|constructor]. unfold handle_batch_item_error.
+    apply sim_bind; [apply sim_clear, Hc|]. intros u. constructor. constructor.
+  Qed.
+
+  Lemma sim_call idx bi : sim l1 l2 (call_handler cfg c1 idx bi) (call_handler cfg c2 idx bi).
+  Proof. unfold call_handler. constructor. apply sim_hprog. Qed.
+
+  Lemma sim_item idx bi : sim l1 l2 (execute_item_mw cfg c1 idx bi) (execute_item_mw cfg c2 idx bi).
+  Proof.
+    unfold execute_item_mw. apply sim_bind; [|intros x; apply sim_hbie].
+    unfold execute_item. apply sim_try_catch.
+    - destruct (i_ext bi) as [[|]|]; [apply sim_ret| |];
+        (destruct (i_pl bi); destruct (routed cfg (i_op bi)); try apply sim_ret;
+         (apply sim_bind; [apply sim_call|intros x; apply sim_ret])).
+    - intros pv. apply sim_bind; [apply sim_hbie|intros r; constructor].
+  Qed.
+
+  Lemma sim_loop eco : forall items i st, sim l1 l2 (item_loop cfg c1 eco i st items) (item_loop cfg c2 eco i st items).
+  Proof.
+    induction items as [|bi rest IH]; intros i st; cbn [item_loop]; [constructor|].
+    destruct st.
+    - apply sim_bind; [apply IH|intros rs; constructor].
+    - apply sim_bind; [apply sim_item|intros r].
+      apply sim_bind; [apply IH|intros rs; constructor].
+  Qed.
+
+  Lemma sim_inner req : sim l1 l2 (handle_request_inner cfg c1 req) (handle_request_inner cfg c2 req).
+  Proof.
+    unfold handle_request_inner.
+    destruct (negb (vmem _ _)); [constructor|].
+    destruct (_ && _); [constructor|].
+    destruct (negb (_ =? _)); [constructor|].
+    apply sim_bind; [apply sim_loop|intros rs; constructor].
+  Qed.
+
+  Lemma sim_message_error req e : sim l1 l2 (handle_message_error c1 req e) (handle_message_error c2 req e).
+  Proof. unfold handle_message_error. apply sim_bind; [apply sim_hbie|intros bi; constructor]. Qed.
+End Sim.
+
+(* a program that allocates its one cell first and then only ever touches that cell *)
+Definition scoped {R} (p : prog R) : Prop :=
+  match p with
+  | Alloc k => forall l1 l2, sim l1 l2 (k l1) (k l2)
+  | Ret _ => True
+  | Throw _ => True
+  | _ => False
+  end.
+
+Lemma handle_request_scoped cfg parent req : scoped (handle_request cfg parent req).
+Proof.
+  destruct req as [r|]; [|exact I]. unfold handle_request, new_batch_context. cbn [pbind scoped].
+  intros l1 l2.
+  assert (Hc : csim l1 l2 (CBatch l1 :: parent) (CBatch l2 :: parent)) by (left; split; reflexivity).
+  apply sim_bind; [apply sim_inner; exact Hc|].
+  intros [resp|e]; [constructor|apply sim_message_error; exact Hc].
+Qed.
+
+Lemma length_set_nth {A} (l : list A) : forall i x, length (set_nth l i x) = length l.
+Proof. induction l as [|y l IH]; intros [|i] x; cbn [set_nth length]; try reflexivity. rewrite IH. reflexivity. Qed.
+
+Lemma nth_error_set_nth_same {A} (l : list A) : forall i x y, nth_error l i = Some y -> nth_error (set_nth l i x) i = Some x.
+Proof.
+  induction l as [|z l IH]; intros [|i] x y H; cbn [set_nth nth_error] in *; try discriminate; [reflexivity|].
+  eapply IH. exact H.
+Qed.
+
+Lemma nth_error_set_nth_other {A} (l : list A) : forall i j x, j <> i -> nth_error (set_nth l i x) j = nth_error l j.
+Proof.
+  induction l as [|z l IH]; intros [|i] [|j] x H; cbn [set_nth nth_error]; try reflexivity; try congruence.
+  apply IH. congruence.
+Qed.
+
+Lemma set_nth_id {A} (l : list A) : forall i x, nth_error l i = Some x -> set_nth l i x = l.
+Proof.
+  induction l as [|z l IH]; intros [|i] x H; cbn [set_nth nth_error] in *; try discriminate.
+  - congruence.
+  - rewrite IH by exact H. reflexivity.
+Qed.
+
+Section Pool.
+  Context {R : Type}.
+  Variable ps : list (prog R).                      (* the requests, as programs *)
+  Hypothesis Hscoped : forall p, In p ps -> scoped p.
+  Variable h1 : heap.                               (* the heap each is run alone on, for comparison *)
+
+  (* thread [t], which started as [p0], is in step with the solo run of [p0] on [h1] *)
+  Definition tinv (h : heap) (p0 : prog R) (t : thread R) : Prop :=
+    match t_loc t with
+    | None => t_prog t = p0 /\ t_log t = []
+    | Some l =>
+      (l < length h)%nat /\
+      exists l' p' h', (l' < length h')%nat /\ sim l l' (t_prog t) p' /\ cell h l = cell h' l' /\
+                       run p0 h1 = prepend (t_log t) (run p' h')
+    end.
+
+  Definition pinv (st : heap * list (thread R)) : Prop :=
+    length (snd st) = length ps /\
+    (forall j t, nth_error (snd st) j = Some t -> exists p0, nth_error ps j = Some p0 /\ tinv (fst st) p0 t) /\
+    (forall i j ti tj l, nth_error (snd st) i = Some ti -> nth_error (snd st) j = Some tj ->
+                         t_loc ti = Some l -> t_loc tj = Some l -> i = j).
+
+  Lemma tinv_frame h h2 p0 t :
+    tinv h p0 t ->
+    (forall l, t_loc t = Some l -> (l < length h)%nat -> (l < length h2)%nat /\ cell h2 l = cell h l) ->
+    tinv h2 p0 t.
+  Proof.
+    unfold tinv. intros Ht Hfr. destruct (t_loc t) as [l|]; [|exact Ht].
+    destruct Ht as [Hl [l' [p' [h' [Hl' [Hsim [Hcell Hrun]]]]]]].
+    destruct (Hfr l eq_refl Hl) as [Hl2 Hc2]. split; [exact Hl2|].
+    exists l', p', h'. repeat split; try assumption. congruence.
+  Qed.
+
+  Lemma pinv_update h ts i t h2 t2 p0 :
+    pinv (h, ts) -> nth_error ts i = Some t -> nth_error ps i = Some p0 ->
+    tinv h2 p0 t2 ->
+    (forall l, t_loc t2 = Some l -> t_loc t = Some l \/ (length h <= l)%nat) ->
+    (forall j tj lj, j <> i -> nth_error ts j = Some tj -> t_loc tj = Some lj -> (lj < length h)%nat ->
+                     (lj < length h2)%nat /\ cell h2 lj = cell h lj) ->
+    pinv (h2, set_nth ts i t2).
+  Proof.
+    intros [Hlen [Hall Huniq]] Ht Hp0 Ht2 Hloc Hfr. cbn [fst snd] in *.
+    assert (Hbound : forall j tj lj, nth_error ts j = Some tj -> t_loc tj = Some lj -> (lj < length h)%nat).
+    { intros j tj lj Hj Hlj. destruct (Hall j tj Hj) as [pj [_ Hinv]]. unfold tinv in Hinv. rewrite Hlj in Hinv.
+      destruct Hinv as [H _]. exact H. }
+    split; [|split]; cbn [fst snd].
+    - rewrite length_set_nth. exact Hlen.
+    - intros j t' Hj. destruct (Nat.eq_dec j i) as [->|Hne].
+      + rewrite (nth_error_set_nth_same _ _ _ _ Ht) in Hj. injection Hj as <-. exists p0. split; assumption.
+      + rewrite nth_error_set_nth_other in Hj by exact Hne.
+        destruct (Hall j t' Hj) as [pj [Hpj Hinv]]. exists pj. split; [exact Hpj|].
+        eapply tinv_frame; [exact Hinv|]. intros l Hl Hlt. eapply Hfr; eassumption.
+    - intros a b ta tb l Ha Hb Hla Hlb.
+      destruct (Nat.eq_dec a i) as [->|Hai]; destruct (Nat.eq_dec b i) as [->|Hbi]; try reflexivity.
+      + rewrite (nth_error_set_nth_same _ _ _ _ Ht) in Ha. injection Ha as <-.
+        rewrite nth_error_set_nth_other in Hb by exact Hbi.
+        destruct (Hloc l Hla) as [Hold|Hfresh].
+        * exact (Huniq i b t tb l Ht Hb Hold Hlb).
+        * pose proof (Hbound b tb l Hb Hlb). lia.
+      + rewrite (nth_error_set_nth_same _ _ _ _ Ht) in Hb. injection Hb as <-.
+        rewrite nth_error_set_nth_other in Ha by exact Hai.
+        destruct (Hloc l Hlb) as [Hold|Hfresh].
+        * exact (Huniq a i ta t l Ha Ht Hla Hold).
+        * pose proof (Hbound a ta l Ha Hla). lia.
+      + rewrite nth_error_set_nth_other in Ha by exact Hai.
+        rewrite nth_error_set_nth_other in Hb by exact Hbi.
+        exact (Huniq a b ta tb l Ha Hb Hla Hlb).
+  Qed.
+
+  Lemma pinv_step i st : pinv st -> pinv (step_pool i st).
+  Proof.
+    destruct st as [h ts]. intros Hinv. unfold step_pool. cbn [fst snd].
+    destruct (nth_error ts i) as [t|] eqn:Ht; [|exact Hinv].
+    pose proof Hinv as [Hlen [Hall Huniq]]. cbn [fst snd] in *.
+    destruct (Hall i t Ht) as [p0 [Hp0 Htinv]].
+    assert (Hsc : scoped p0) by (apply Hscoped; eapply nth_error_In; exact Hp0).
+    unfold step_thread. unfold tinv in Htinv.
+    destruct (t_loc t) as [l|] eqn:Hloc.
+    - (* running on its own cell [l] *)
+      destruct Htinv as [Hl [l' [p' [h' [Hl' [Hsim [Hcell Hrun]]]]]]].
+      destruct (t_prog t) as [r|k|l0 k|l0 v k|e k|pv] eqn:Hp.
+      + rewrite (set_nth_id _ _ _ Ht). exact Hinv.
+      + inversion Hsim.
+      + inversion Hsim as [| |k1 k2 Hk| |]; subst.
+        eapply pinv_update; try eassumption.
+        * unfold tinv. cbn [t_loc t_prog t_log]. split; [exact Hl|].
+          exists l', (k2 (cell h l0)), h'. repeat split; try assumption; [apply Hk|].
+          rewrite Hrun. cbn [run]. rewrite Hcell. reflexivity.
+        * intros l1 Hl1. cbn [t_loc] in Hl1. left. congruence.
+        * intros j tj lj _ _ _ Hlt. split; [exact Hlt|reflexivity].
+      + inversion Hsim as [| | |v0 k1 k2 Hk|]; subst.
+        eapply pinv_update; try eassumption.
+        * unfold tinv. cbn [t_loc t_prog t_log]. split; [rewrite length_upd; exact Hl|].
+          exists l', k2, (upd h' l' v). repeat split; try assumption.
+          -- rewrite length_upd. exact Hl'.
+          -- rewrite !cell_upd_same by assumption. reflexivity.
+        * intros l1 Hl1. cbn [t_loc] in Hl1. left. congruence.
+        * intros j tj lj Hji Hj Hlj Hlt. split; [rewrite length_upd; exact Hlt|].
+          apply cell_upd_other. intros ->. apply Hji. exact (Huniq j i tj t lj Hj Ht Hlj Hloc).
+      + inversion Hsim as [| | | |e0 k1 k2 Hk]; subst.
+        eapply pinv_update; try eassumption.
+        * unfold tinv. cbn [t_loc t_prog t_log]. split; [exact Hl|].
+          exists l', k2, h'. repeat split; try assumption.
+          rewrite Hrun. cbn [run]. rewrite prepend_app. reflexivity.
+        * intros l1 Hl1. cbn [t_loc] in Hl1. left. congruence.
+        * intros j tj lj _ _ _ Hlt. split; [exact Hlt|reflexivity].
+      + rewrite (set_nth_id _ _ _ Ht). exact Hinv.
+    - (* not started yet *)
+      destruct Htinv as [Hp Hlog]. rewrite Hp.
+      destruct p0 as [r|k|l0 k|l0 v k|e k|pv]; cbn [scoped] in Hsc; try contradiction.
+      + rewrite (set_nth_id _ _ _ Ht). exact Hinv.
+      + eapply pinv_update; try eassumption.
+        * unfold tinv. cbn [t_loc t_prog t_log]. split; [rewrite app_length; cbn [length]; lia|].
+          exists (length h1), (k (length h1)), (h1 ++ [[]]). repeat split.
+          -- rewrite app_length. cbn [length]. lia.
+          -- apply Hsc.
+          -- rewrite !cell_app_new. reflexivity.
+          -- rewrite Hlog, prepend_nil. reflexivity.
+        * intros l1 Hl1. cbn [t_loc] in Hl1. right. injection Hl1 as <-. lia.
+        * intros j tj lj _ _ _ Hlt. split; [rewrite app_length; lia|apply cell_app_lt; exact Hlt].
+      + rewrite (set_nth_id _ _ _ Ht). exact Hinv.
+  Qed.
+
+  Lemma pinv_run sched : forall st, pinv st -> pinv (run_pool sched st).
+  Proof.
+    unfold run_pool. induction sched as [|i sched IH]; intros st Hinv; cbn [fold_left]; [exact Hinv|].
+    apply IH. apply pinv_step. exact Hinv.
+  Qed.
+
+  Lemma pinv_init h0 : pinv (h0, map spawn ps).
+  Proof.
+    split; [|split]; cbn [fst snd].
+    - apply map_length.
+    - intros j t Hj. rewrite nth_error_map in Hj. destruct (nth_error ps j) as [p0|]; [|discriminate].
+      cbn in Hj. injection Hj as <-. exists p0. split; [reflexivity|]. split; reflexivity.
+    - intros i j ti tj l Hi _ Hli _. rewrite nth_error_map in Hi. destruct (nth_error ps i); [|discriminate].
+      cbn in Hi. injection Hi as <-. discriminate.
+  Qed.
+
+  (* isolation: under any schedule, what a request has logged so far is a prefix of what it
+     logs when run alone, and a finished request has exactly its solo result and log *)
+  Theorem pool_isolated sched h0 i t p0 :
+    nth_error (snd (run_pool sched (h0, map spawn ps))) i = Some t ->
+    nth_error ps i = Some p0 ->
+    (exists rest, out_log (run p0 h1) = t_log t ++ rest) /\
+    (forall r, t_prog t = Ret r -> exists h', run p0 h1 = Done r h' (t_log t)) /\
+    (forall pv, t_prog t = Throw pv -> exists h', run p0 h1 = Panicked pv h' (t_log t)).
+  Proof.
+    intros Ht Hp0. pose proof (pinv_run sched _ (pinv_init h0)) as [_ [Hall _]].
+    destruct (Hall i t Ht) as [p0' [Hp0' Hinv]]. rewrite Hp0 in Hp0'. injection Hp0' as <-.
+    unfold tinv in Hinv. destruct (t_loc t) as [l|].
+    - destruct Hinv as [_ [l' [p' [h' [_ [Hsim [_ Hrun]]]]]]]. rewrite Hrun. split; [|split].
+      + rewrite out_log_prepend. eexists. reflexivity.
+      + intros r Hr. rewrite Hr in Hsim. inversion Hsim; subst. cbn [run prepend]. rewrite app_nil_r.
+        eexists. reflexivity.
+      + intros pv Hr. rewrite Hr in Hsim. inversion Hsim; subst. cbn [run prepend]. rewrite app_nil_r.
+        eexists. reflexivity.
+    - destruct Hinv as [Hp Hlog]. rewrite Hlog, Hp. split; [|split].
+      + eexists. reflexivity.
+      + intros r ->. eexists. reflexivity.
+      + intros pv ->. eexists. reflexivity.
+  Qed.
+End Pool.
+
+(** * C15 theorems about [handle_request] *)
+
+Definition reqspec := (config * ctx * option request)%type.
+Definition request_prog (r : reqspec) : prog response :=
+  match r with (cfg, parent, req) => handle_request cfg parent req end.
+
+Theorem placeholder_isolated reqs sched h0 h1 i t cfg parent req :
+  nth_error (snd (run_pool sched (h0, map spawn (map request_prog reqs)))) i = Some t ->
+  nth_error reqs i = Some (cfg, parent, req) ->
+  (exists rest, out_log (run (handle_request cfg parent req) h1) = t_log t ++ rest) /\
+  (forall resp, t_prog t = Ret resp ->
+     exists h', run (handle_request cfg parent req) h1 = Done resp h' (t_log t)) /\
+  (forall pv, t_prog t = Throw pv ->
+     exists h', run (handle_request cfg parent req) h1 = Panicked pv h' (t_log t)).
+Proof.
+  intros Ht Hr.
+  assert (Hsc : forall p, In p (map request_prog reqs) -> scoped p).
+  { intros p Hin. apply in_map_iff in Hin. destruct Hin as [[[cfg' parent'] req'] [<- _]].
+    apply handle_request_scoped. }
+  assert (Hp : nth_error (map request_prog reqs) i = Some (handle_request cfg parent req)).
+  { rewrite nth_error_map, Hr. reflexivity. }
+  exact (pool_isolated (map request_prog reqs) Hsc h1 sched h0 i t _ Ht Hp).
+Qed.
+
+Lemma flow_prefix a : forall v b w, flow v (a ++ b) = Some w -> exists v', flow v a = Some v'.
+Proof.
+  intros v b w H. rewrite flow_app in H. destruct (flow v a) as [v'|]; [exists v'; reflexivity|discriminate].
+Qed.
+
+(* under any interleaving, what a request observes is explained by its own actions alone,
+   starting from an empty placeholder *)
+Theorem placeholder_concurrent_flow reqs sched h0 i t :
+  nth_error (snd (run_pool sched (h0, map spawn (map request_prog reqs)))) i = Some t ->
+  exists v, flow [] (t_log t) = Some v.
+Proof.
+  intros Ht.
+  assert (Hlen : length (snd (run_pool sched (h0, map spawn (map request_prog reqs)))) = length reqs).
+  { assert (Hsc : forall p, In p (map request_prog reqs) -> scoped p).
+    { intros p Hin. apply in_map_iff in Hin. destruct Hin as [[[cfg' parent'] req'] [<- _]].
+      apply handle_request_scoped. }
+    destruct (pinv_run (map request_prog reqs) Hsc [] sched _ (pinv_init (map request_prog reqs) [] h0)) as [Hl _].
+    rewrite Hl. apply map_length. }
+  destruct (nth_error reqs i) as [[[cfg parent] req]|] eqn:Hr.
+  - destruct (placeholder_isolated reqs sched h0 [] i t cfg parent req Ht Hr) as [[rest Hpre] _].
+    destruct (placeholder_flow cfg parent req []) as [w Hw]. rewrite Hpre in Hw.
+    eapply flow_prefix. exact Hw.
+  - exfalso. apply nth_error_None in Hr. assert (Hi : (i < length reqs)%nat).
+    { rewrite <- Hlen. apply nth_error_Some. congruence. }
+    lia.
+Qed.
+
+(** Non-vacuity: two requests interleaved so that A stores before B reads, on a heap that
+    already holds a foreign value, B arriving in a context that still carries A's batch entry. *)
+Definition ex15_cfg (s : str) : config :=
+  scripted_config [(1,4)] [10]
+    [(0, ([SRead HOwn; SSet HOwn s; SRead HOwn], HOk RNil)); (1, ([SCopy [33]; SRead HOwn], HOk RNil))].
+Definition ex15_req : option request :=
+  Some {| r_hdr := {| h_ver := (1,4); h_opt := 0; h_count := 2 |};
+          r_items := [ {| i_op := 10; i_id := None; i_ext := None; i_pl := POther 0 |};
+                       {| i_op := 10; i_id := None; i_ext := None; i_pl := POther 1 |} ] |}.
+Definition ex15_pool : list reqspec :=
+  [ (ex15_cfg [97], [CConn 1], ex15_req); (ex15_cfg [98], [CBatch 1; CConn 2], ex15_req) ].
+Definition ex15_sched : list nat :=
+  [0;1;0;1;0;1;0;0;0;1;1;1;0;1;0;1;0;1;0;1;0;1;0;1;0;1;0;1;0;1;0;1;0;1;0;1;0;1;0;1]%nat.
+
+Lemma placeholder_example :
+  map (fun t => (enc_log (req_items ex15_req) (t_log t), match t_prog t with Ret _ => true | _ => false end))
+      (snd (run_pool ex15_sched ([[120]], map spawn (map request_prog ex15_pool)))) =
+  [ ([1;0; 2;0;0;0; 4;0;0;1;97; 2;0;0;1;97; 6;0;1;0; 1;1; 2;1;0;1;97; 4;1;0;2;97;33; 2;1;0;2;97;33; 6;1;1;0], true);
+    ([1;0; 2;0;0;0; 4;0;0;1;98; 2;0;0;1;98; 6;0;1;0; 1;1; 2;1;0;1;98; 4;1;0;2;98;33; 2;1;0;2;98;33; 6;1;1;0], true) ].
+Proof. vm_compute. reflexivity. Qed.
